@@ -373,7 +373,10 @@ def check_hostile(chunk_index, nchunks):
 def replay(rep):
     env.silence_unraisable()
     part = rep["part"]
-    if part == "custom":
+    if part.startswith("two-serving-threads"):
+        a = two_servers_run(rep["choices"], False, None)[1]["violations"]
+        b = two_servers_run(rep["choices"], False, None)[1]["violations"]
+    elif part == "custom":
         a, b = check_custom()[1], check_custom()[1]
     elif part == "hostile":
         a, b = check_hostile(0, 1)[1], check_hostile(0, 1)[1]
@@ -385,6 +388,81 @@ def replay(rep):
     for x in a[:10]:
         print(x)
     return 1 if a else 0
+
+
+# ------------------------------------------------------------------ two threads serving one connection
+class FailSvc(_rpyc.Service):
+    def exposed_fail(self, which, arg):
+        raise {"KeyError": KeyError, "ValueError": ValueError}[which](arg)
+
+
+_watched = [False]
+
+
+def two_servers_run(choices, want_state, cut_fn):
+    """two requests that fail differently are served by two threads of the same side at once (BgServingThread + a serving
+    caller, serve_threaded): every schedule must answer each request with ITS OWN exception"""
+    from mc import sched as S, canon, trace
+    from rpyc.core.protocol import Connection
+    if not _watched[0]:
+        trace.watch([Connection._dispatch_request, Connection._send_exc, Connection._box_exc])
+        _watched[0] = True
+    box = {}
+    peer = RP.RawPeer(FailSvc(), {})
+
+    def main():
+        sch = S.current_sched()
+        sch.armed = False
+        k, a = peer.request(3)                      # getroot
+        root = a[1]
+        for seq, (cls, arg) in ((71, ("KeyError", "alpha")), (72, ("ValueError", "beta"))):
+            peer.send_payload((R.REQUEST, seq, (8, RP.tup(RP.yours(root), RP.val("fail"), RP.val((cls, arg)), RP.val(())))))
+        conn = peer.conn
+
+        def server():
+            for _ in range(3):
+                try:
+                    conn.serve(0.05)
+                except EOFError:
+                    return
+        ts = [S.SimThread(target=server, name="srv%d" % i) for i in (1, 2)]
+        sch.armed = True
+        for t in ts:
+            t.start()
+        for t in ts:
+            t.join(50)
+        sch.armed = False
+        got = {}
+        while True:
+            m = peer.take()
+            if m is None:
+                break
+            got.setdefault(m[1], []).append((m[0], m[2][0] if (m[0] == R.EXCEPTION and isinstance(m[2], tuple)) else m[2], m[2][1] if m[0] == R.EXCEPTION else None))
+        box["got"] = got
+
+    def state_fn(sc):
+        return canon.state_key(sc, [peer.conn, peer.a, peer.b], canon.DEFAULT_PREFIXES)
+
+    import gc
+    gc.disable()
+    sch = S.Scheduler(choices, state_fn=state_fn if want_state else None, cut_fn=cut_fn, sync_points=True, io_points=True,
+                      horizon=1000, max_steps=100000)
+    sch.run(main)
+    peer.close()
+    if sch.outcome == "cut":
+        return sch, {"violations": [], "outcome_key": None}
+    viol = []
+    got = box.get("got")
+    if sch.outcome != "done" or got is None:
+        viol.append(("two-servers:scheduler:%s" % sch.outcome, repr(sch.deadlock_info) + repr(sch.threads[0].exc)))
+        return sch, {"violations": viol, "outcome_key": sch.outcome}
+    want = {71: [(R.EXCEPTION, ("builtins", "KeyError"), ("alpha",))], 72: [(R.EXCEPTION, ("builtins", "ValueError"), ("beta",))]}
+    for seq in (71, 72):
+        if got.get(seq) != want[seq]:
+            viol.append(("two-servers:request-answered-with-another-requests-exception" if len(got.get(seq, ())) == 1 else
+                         "two-servers:request-got-%d-responses" % len(got.get(seq, ())),
+                         "request %d failed with %r on the peer, the requester received %r" % (seq, want[seq][0][1:], got.get(seq))))
+    return sch, {"violations": viol, "outcome_key": tuple(sorted((k, tuple(v)) for k, v in got.items()))}
 
 
 def main(tier, replay_obj=None):
@@ -413,6 +491,14 @@ def main(tier, replay_obj=None):
     res.parts["custom"] = {"cases": n}
     for sig, text in viol:
         res.violation(sig, text, {"part": "custom"})
+    from mc import explore
+    # no state cache here: what distinguishes the interesting states (whose exception a thread is about to send) lives in
+    # exception objects and tracebacks, which the canonical state abstracts; the space is small enough without it
+    ex = explore.ParallelExplorer(two_servers_run, bound=2 if tier == "quick" else 3, max_seconds=150 if tier == "quick" else 900,
+                                  stop_on_violation=True, use_cache=False)
+    ex.explore()
+    res.add_explorer("two-serving-threads/pb", ex)
+    res.bounds["two-serving-threads"] = "preemptions<=%s" % ex.stats.bound_completed
     outs = runner.pmap(check_hostile, [(i, nch) for i in range(nch)])
     ocs = set()
     for n, viol, oc in outs:
